@@ -82,6 +82,12 @@ def snapshot(root, meta=False, skip=('patches', 'series')):
                     dirs.remove(s)
             files = [f for f in files if f not in skip]
             rel = ''
+        # a symbolic link to a directory is a link, not a directory (os.walk lists it among the directories but does not enter it)
+        for dn in list(dirs):
+            dp = os.path.join(cur, dn)
+            if os.path.islink(dp):
+                dirs.remove(dn)
+                out[os.path.join(rel, dn) if rel else dn] = ('L', os.readlink(dp))
         st = os.lstat(cur)
         if rel:
             out[rel + '/'] = ('D', st.st_mode & 0o7777) + ((st.st_ino, st.st_mtime_ns) if meta else ())
@@ -144,7 +150,7 @@ def parse_trace(path):
     return decisions, events
 
 
-def run_rq(root, args, threads=1, sched=None, trace=None, preload_env=None, cwd=None, timeout=HORIZON, use_d=True, mem_limit=None, threads_env=False, _retry=False):
+def run_rq(root, args, threads=1, sched=None, trace=None, preload_env=None, cwd=None, timeout=HORIZON, use_d=True, mem_limit=None, threads_env=False, _retry=False, as_nobody=False):
     """Run `rapidquilt push <args>` on workspace `root`.
     threads>1: under the scheduler; sched = list of worker ids (schedule script), None/[] = serial default.
     trace: path of a trace file to (re)create; preload_env: extra env for the LD_PRELOAD shim."""
@@ -160,6 +166,8 @@ def run_rq(root, args, threads=1, sched=None, trace=None, preload_env=None, cwd=
     if threads_env:
         env['RAPIDQUILT_THREADS'] = str(threads)   # thread count from the environment instead of --threads
     cmd = [common.RQ, 'push'] + (['-d', root] if use_d else []) + ([] if threads_env else ['--threads', str(threads)]) + list(args)
+    if as_nobody:   # an ordinary user instead of root (who is exempt from a number of rules)
+        cmd = ['setpriv', '--reuid=65534', '--regid=65534', '--clear-groups'] + cmd
     if cwd is None:
         # with -d the process runs from a neutral directory, so that every path has to honour the working directory option;
         # without -d the workspace is the current directory
